@@ -3,12 +3,14 @@
 # Regression run over the stored seeded changes: for every /verif/seeded/<name>/ applies patch.diff to a
 # scratch worktree of /repo HEAD, builds it, and runs the property's quick check against the changed tree
 # with the CURRENT harness.  Prints one line per seed: CAUGHT (rc=1 with a VIOLATION line), MISSED (rc=0),
-# BROKEN (anything else) or NOAPPLY.  Nothing is stored; scratch trees are removed.
+# BROKEN (anything else), NOAPPLY, or OBSOLETE (the directory has an `obsolete` file: a later fix: commit made the change harmless).  Nothing is stored; scratch trees are removed.
 export GOFLAGS=-mod=mod GOPROXY=off GOSUMDB=off GOTOOLCHAIN=local
 J=4; [ "$1" = -j ] && { J=$2; shift 2; }
 names=${@:-$(ls /verif/seeded)}
 one() {
   name=$1; S=/verif/seeded/$name; ID=${name%%-*}
+  # a change that no longer breaks the property since a later fix: commit in /repo (reason in the file): not run
+  [ -f $S/obsolete ] && { echo "$name OBSOLETE $(head -1 $S/obsolete | cut -c1-200)"; return; }
   [ -f $S/checks ] && ID=$(head -1 $S/checks)   # a change seeded against one property but caught by another property's check
   D=$(mktemp -d /tmp/rs.XXXXXX)
   git -C /repo worktree add -q --detach "$D/wt" HEAD || { echo "$name BROKEN worktree"; rm -rf $D; return; }
